@@ -11,8 +11,8 @@ import (
 func init() {
 	register(&Property{
 		Meta: PropMeta{
-			ID:    "C01",
-			Level: "other",
+			ID:          "C01",
+			Level:       "other",
 			Explanation: "Structural necessary conditions of 'option fields hold what the command line denotes', decided on the SSA of /repo for all paths: (FUNNEL) every reflect mutator call in the package (Set, SetInt, SetUint, SetFloat, SetBool, SetString, SetMapIndex) acts on the conversion target handed down from Option.value / Arg.value, on a value freshly made with reflect.New / Indirect, or is one of the setup allocations of nil struct pointers; Option.value and Arg.value are stored only by the scans (and AddOption); (UNTOUCHED) a field becomes an option only if it is exported (or embedded) and carries a long, short or ini-name tag, and a struct pointer is written back only when it was allocated by the scan and something was declared inside; (ONCE) in parseOption every return that may carry a nil error has applied the occurrence (Set, or empty() for an optional argument), Set is not reachable twice outside the optional-value loop, parseShort applies one parseOption per rune, ParseArgs chooses exactly one of parseLong / parseShort per token, Option.call is reached only from Set and calls the callback once; (REARM) before the argument loop ParseArgs re-arms clearReferenceBeforeSet on every option of every command at every depth (eachOption → eachCommand with recurse = true, recursion passes true on) so the first occurrence of a parse replaces earlier contents and later ones accumulate; (STORE) slices append the converted element, maps insert the converted key/value split at the first colon, an argument-less occurrence stores true; (NAMES) the attached argument of a short option starts after the first rune's encoded width and the lookup tables are keyed by the declared names (shared with C02/C07).",
 			NotDecided:  "that the stored value equals the value denoted (C11 covers the conversion's shape only); correctness of token classification on every vector.",
 			Trusted:     []string{"go/ssa lowering", "go/types", "reflect Set*/Append semantics"},
@@ -111,7 +111,9 @@ func runC01(c *Ctx, r *Report, tier string) {
 		_, a := c.Requires(ss, isInstr(in), func(l Lit) bool {
 			return !l.Pos && strings.HasPrefix(l.Term, "eq(") && strings.Contains(l.Term, "len(Group.options(P0))") && strings.Contains(l.Term, "len(Group.groups(P0))")
 		}, nil)
-		_, b := c.Requires(ss, isInstr(in), func(l Lit) bool { return l.Pos && (strings.HasPrefix(l.Term, "phi{") || strings.HasPrefix(l.Term, "cell:bool")) }, nil)
+		_, b := c.Requires(ss, isInstr(in), func(l Lit) bool {
+			return l.Pos && (strings.HasPrefix(l.Term, "phi{") || strings.HasPrefix(l.Term, "cell:bool"))
+		}, nil)
 		r.Check(a && b, "UNTOUCHED", sn, "struct pointer written back only when the scan allocated it and something was declared", c.ipos(in), "REQ(allocated) ∧ REQ(option/group count changed)", fmt.Sprintf("count-changed necessary=%v allocated necessary=%v", a, b))
 	}
 	r.Check(nWB == 1, "UNTOUCHED", sn, "pointer write-back site", c.pos(ss.Pos()), "one", fmt.Sprintf("%d", nWB))
